@@ -4,6 +4,7 @@ import (
 	"bytes"
 	"context"
 	"encoding/hex"
+	"encoding/json"
 	"errors"
 	"fmt"
 
@@ -472,7 +473,7 @@ func (w *c04World) Run(c *kernel.RunCtx) {
 		s.tx.LockTime = uint32(c.U64n(1 << 32))
 	}
 	// swarm: per-run event weights
-	wts := make([]int, 12)
+	wts := make([]int, 13)
 	for i := range wts {
 		wts[i] = 1 + c.Choose(6)
 		if c.Bool(1, 5) {
@@ -717,6 +718,40 @@ func (w *c04World) event(s *c04State, kind int) string {
 		return w.tamperPresentation(s)
 	case 11: // SignerFails
 		return w.signerFails(s)
+	case 12: // Inspect: other features of the library are used on the draft; none of them may change it
+		which := c.Choose(7)
+		name := []string{"TxID", "Size+EstimateSize", "json.Marshal", "NodeJSON", "Clone", "fee getters", "String"}[which]
+		s.libCall("Inspect("+name+")", func() {
+			_ = catch(func() {
+				switch which {
+				case 0:
+					_ = tx.TxID()
+					_ = tx.TxIDBytes()
+				case 1:
+					_ = tx.Size()
+					_, _ = tx.EstimateSize()
+					_, _ = tx.EstimateSizeWithTypes()
+				case 2:
+					_, _ = json.Marshal(tx)
+				case 3:
+					_, _ = json.Marshal(tx.NodeJSON())
+				case 4:
+					_ = tx.Clone()
+				case 5:
+					fq := bt.NewFeeQuote()
+					_, _ = tx.IsFeePaidEnough(fq)
+					_, _ = tx.EstimateIsFeePaidEnough(fq)
+					_, _ = tx.EstimateFeesPaid(fq)
+					_ = tx.TotalInputSatoshis()
+					_ = tx.TotalOutputSatoshis()
+				default:
+					_ = tx.String()
+					_ = tx.ExtendedBytes()
+					_ = tx.BytesWithClearedInputs(0, []byte{0x51})
+				}
+			})
+		})
+		return "Inspect(" + name + ")"
 	}
 	return ""
 }
